@@ -142,7 +142,10 @@ func (u *UDP) SetInternalPortsForTesting() {
 }
 
 func (u *UDP) VerifyChecksum() (error, gopacket.ChecksumVerificationResult) {
-	bytes := append(u.Contents, u.Payload...)
+	// Contents usually has spare capacity (it is a prefix of the packet data):
+	// a plain append would write the payload over itself inside the shared
+	// packet buffer, racing with every other reader of the packet. Force a copy.
+	bytes := append(u.Contents[:len(u.Contents):len(u.Contents)], u.Payload...)
 
 	existing := u.Checksum
 	verification, err := u.computeChecksum(bytes, IPProtocolUDP)
